@@ -283,6 +283,7 @@ def wellformed_tag(tag):
             if len(idx) > 3:
                 return False
             for i in idx:
+                i = i.strip()      # int() tolerates surrounding blanks; the index still denotes that number
                 if not (i.isdigit() and i.isascii()) or int(i) > 0xFFFFFFFF:
                     return False
     return True
